@@ -23,6 +23,9 @@ def main():
         from harness import staging_sim                # noqa
         from harness import script_sim                 # noqa
         from harness import wait_sim                   # noqa
+        from harness import slot_sim                   # noqa
+        from harness import pilot_sim                  # noqa
+        from harness import nodefile_sim               # noqa
         fn = builders.BUILDERS.get(case['function'])
         if fn is None:
             out = dict(confirmed=None,
